@@ -23,6 +23,8 @@ TraceNext ==
     /\ UNCHANGED <<alive, wls, watcher, pending, scanned, hist>>
     /\ LET e == Trace[l]
            a == AliveAfter(e.ops, 1, [n \in Nodes |-> TRUE]) IN
+       IF e.starved THEN TRUE      \* the driver process was starved of CPU during this history: not judged
+       ELSE
        /\ \A n \in Nodes : Report(Row(e, n).alive = a[n], "REF", l, "heartbeat-status-differs-from-model/" \o n)
        /\ \A n \in Nodes : Report((e.started /\ ~a[n]) => Down(Row(e, n)), "C28", l,
                                   "workloads-of-lapsed-node-still-up/" \o LastLapse(e, n) \o "/" \o StartedBefore(e, n))
